@@ -77,3 +77,11 @@ Definition check_lcase (c : lcase) : bool :=
 
 Fixpoint lbad_indices (i : nat) (l : list lcase) : list nat :=
   match l with [] => [] | x :: r => if check_lcase x then lbad_indices (S i) r else i :: lbad_indices (S i) r end.
+
+(* cases grouped by span (the harness binds the span, its tables and its data once per group): indices of the groups
+   containing a disagreement *)
+Fixpoint gbad_indices (i : nat) (l : list (list lcase)) : list nat :=
+  match l with
+  | [] => []
+  | g :: r => match lbad_indices 0%nat g with [] => gbad_indices (S i) r | _ :: _ => i :: gbad_indices (S i) r end
+  end.
